@@ -113,3 +113,135 @@ def rule(ctx, prog, chk, family, set_one, rule_name="EXP-SIB"):
             else:
                 chk.ok(rule_name, fn, "zero", "wherever the exponent is known to be zero the result was set to 1", line=fn.line)
     return n
+
+
+# ---------------------------------------------------------------------- SM-SIGN (scalar multiplications)
+def rule_sm_sign(ctx, prog, chk, family, famre, rule_name="SM-SIGN"):
+    """every scalar-multiplication sibling honours the sign of each scalar parameter on every path that returns a point
+    computed from it: the path consults the sign (bn_sign / ->sign, also of a copy), reduces the scalar modulo the order with
+    bn_mod (which maps a negative scalar to its positive representative), or hands the scalar to a sibling; paths on which
+    that scalar's term is moot (the scalar tested zero, its point tested to be the identity) or the result is the identity
+    need nothing"""
+    names = set(f.name for f in family)
+    n = 0
+    for fn in family:
+        exps = exponent_params(fn)
+        if not exps or not fn.params:
+            continue
+        r = fn.params[0]
+        # the point a scalar multiplies: the point-typed parameter just before it
+        point_of = {}
+        for E in exps:
+            i = fn.params.index(E)
+            if i > 0:
+                point_of[E] = fn.params[i - 1]
+        g = ctx.xcfg(prog, fn)
+
+        def is_scalar(k, E):
+            """the scalar parameter itself, or an element of an array of scalars"""
+            while isinstance(k, tuple) and k and k[0] == "x":
+                k = k[1]
+            return k == ("v", E)
+
+        def gen(node, s, pre, fn=fn, exps=exps, r=r):
+            out = []
+            for cl in ir.calls_in(fn, node.el.e):
+                if not cl[1]:
+                    continue
+                if cl[1] == "bn_sign" and len(cl[2]) == 1:
+                    k = key(fn, cl[2][0])
+                    kb = k
+                    while isinstance(kb, tuple) and kb and kb[0] == "x":
+                        kb = kb[1]
+                    for E in exps:
+                        if is_scalar(k, E) or ("ev", "copyof", k, E) in pre or ("ev", "copyof", kb, E) in pre:
+                            out.append(("ev", "sc", E))
+                elif cl[1] in ("bn_rec_frb", "bn_rec_glv") and len(cl[2]) >= 3:
+                    # the decompositions give their sub-scalars the sign of the scalar (bn_rec_frb) or signs whose
+                    # combination denotes it (bn_rec_glv): consulting the sign of a sub-scalar honours the scalar's
+                    src = cl[2][2]
+                    sk = key(fn, src)
+                    for E in exps:
+                        if is_scalar(sk, E) or ("ev", "copyof", sk, E) in pre:
+                            for a in (cl[2][:1] if cl[1] == "bn_rec_frb" else cl[2][:2]):
+                                kb = key(fn, a)
+                                while isinstance(kb, tuple) and kb and kb[0] == "x":
+                                    kb = kb[1]
+                                out.append(("ev", "copyof", kb, E))
+                elif cl[1] in ("bn_copy", "bn_lsh", "bn_dbl") and len(cl[2]) >= 2:
+                    # copies and left shifts keep the sign
+                    for E in exps:
+                        if is_scalar(key(fn, cl[2][1]), E):
+                            out.append(("ev", "copyof", key(fn, cl[2][0]), E))
+                elif re.match(r"^bn_mod(_basic|_barrt|_monty|_pmers)?$", cl[1]) and len(cl[2]) >= 3:
+                    k = key(fn, cl[2][1])
+                    for E in exps:
+                        if is_scalar(k, E) or ("ev", "copyof", k, E) in pre:
+                            out.append(("ev", "sc", E))
+                elif re.search(r"_set_infty$", cl[1]) and cl[2] and key(fn, cl[2][0]) == ("v", r):
+                    out.append(("ev", "infty"))
+                elif cl[1] in names or famre.match(cl[1]):
+                    for a in cl[2]:
+                        for E in exps:
+                            if is_scalar(key(fn, a), E):
+                                out.append(("ev", "sc", E))
+            for sub in ir.walk(fn, node.el.e):
+                if sub[0] == "m" and sub[2] == "sign":
+                    for E in exps:
+                        if is_scalar(key(fn, sub[1]), E):
+                            out.append(("ev", "sc", E))
+            return out
+
+        def kill(node, s, fn=fn, r=r):
+            w = engines.written_vars(prog, fn, node.el.e)
+            if r in w and not any(cl[1] and re.search(r"_set_infty$", cl[1]) for cl in ir.calls_in(fn, node.el.e)):
+                s = frozenset(x for x in s if x != ("ev", "infty"))
+            return s
+
+        def edge_gen(node, label, atoms, fn=fn, exps=exps, point_of=point_of):
+            out = []
+            for at in atoms:
+                if at[0] != "cmp" or not isinstance(at[1], tuple) or at[1][0] != "c" or not engines.entails(at[2], at[3], "!=", 0):
+                    continue
+                for E in exps:
+                    if at[1][1] == "bn_is_zero" and len(at[1][2]) == 1 and is_scalar(at[1][2][0], E):
+                        out.append(("ev", "moot", E))
+                    P = point_of.get(E)
+                    if P is not None and isinstance(at[1][1], str) and re.search(r"_is_infty$", at[1][1]) and at[1][2] == (("v", P),):
+                        out.append(("ev", "moot", E))
+            return out
+        miss_of = {}
+        nret = 0
+        somewhere = set()
+        for follow, assign in engines.condition_worlds(g):
+            F = Facts(prog, g, gen=gen, extra_kill=kill, edge_gen=edge_gen, mark_thrown=True, follow=follow)
+            for nd in g.nodes:
+                if nd.kind == "el":
+                    st0 = F.IN.get(nd)
+                    if st0 is not None and st0 is not engines.UNIVERSE:
+                        for x in gen(nd, st0, st0) or ():
+                            if x[:2] == ("ev", "sc"):
+                                somewhere.add(x[2])
+            for p, st in engines.normal_exit_states(F, g):
+                nret += 1
+                for E in exps:
+                    if ("ev", "infty") in st or ("ev", "moot", E) in st or ("ev", "sc", E) in st:
+                        continue
+                    miss_of.setdefault(E, p)
+        for E in exps:
+            miss = miss_of.get(E)
+            if nret == 0:
+                continue
+            et = fn.vars[E].get("ot") or fn.vars[E].get("t", "")
+            if miss is not None and ("*" in et or "[" in et):
+                # an array of scalars is handled in a loop that runs once per element (zero times for an empty list): the
+                # consultation has to exist inside the function, it cannot lie on every path
+                if E in somewhere:
+                    miss = None
+            n += 1
+            nm = fn.vars[E]["n"]
+            if miss is not None:
+                chk.fail(rule_name, fn, nm, "a path returns a point computed from the scalar `%s` without consulting its sign, reducing it modulo the order or handing it to a sibling: negative scalars yield [|%s|]P" % (nm, nm), line=c05_line(miss, fn))
+            else:
+                chk.ok(rule_name, fn, nm, "every path honours the sign of `%s` (sign test, reduction modulo the order, delegation) or the term is moot" % nm, line=fn.line)
+    return n
